@@ -9,20 +9,56 @@ import lb
 PID = "C15"
 RULE = ("enumeration: for each generated valid file (1-3 concatenated streams from lbzip2 and bzip2, 1-3 blocks each, "
         "mixed bit alignments) EVERY bit of EVERY stored block CRC and stream CRC is flipped, and the damaged file is "
-        "decompressed with 1, 2, 4 and 16 workers (plus one serialised PCT schedule); oracle: exit status 1; "
+        "decompressed with 1, 2, 4 and 16 workers (plus one serialised PCT schedule, plus 4- and 8-byte input blocks so that the "
+        "parser is suspended between the halves of a CRC); one more file per run has a stream CRC split 16/16 by the edge of "
+        "the first 256 KiB input block at production size; oracle: exit status 1; "
         "every evaluation is non-trivial; distinct by (file, field, bit, workers)")
-WORKERS = [(1, None), (2, None), (4, None), (16, None), (3, "serial")]
+WORKERS = [(1, None, None), (2, None, None), (4, None, None), (16, None, None), (3, "serial", None),
+           # 4- and 8-byte input blocks (hook): the parser is suspended after every 32-bit word, i.e. also between the
+           # two 16-bit halves of a stored CRC
+           (2, None, 4), (1, None, 8)]
+EMPTY = b"BZh9" + bytes.fromhex("177245385090") + b"\0\0\0\0"
+
+
+def straddle_file(seed):
+    """A file at PRODUCTION block size whose second-to-last stream has its stored stream CRC split by the edge of the
+    first 256 KiB input block (offset 4 + 262144): 16 bits on each side.  Padding = empty 14-byte streams."""
+    import bz2
+    import random
+    import bzk
+    r = random.Random(seed)
+    for attempt in range(4000):
+        d = bytes(r.choices(b"abcdefgh \n", k=r.randrange(20, 400)))
+        z = bz2.compress(d, r.randrange(1, 10))
+        info, _ = bzk.inspect(z)
+        bc = info["streams"][0]["bit_crc"]
+        if bc % 8:
+            continue
+        off = bc // 8 + 2                      # end of the high half, relative to the start of this stream
+        rem = 4 + 262144 - off
+        if rem < 0 or rem % 14:
+            continue
+        tail = bz2.compress(b"after the edge " * 3, 1)
+        data = EMPTY * (rem // 14) + z + tail
+        info, out = bzk.inspect(data)
+        if not info["valid"]:
+            continue
+        return {"data": data, "plain": out, "desc": "crc-straddles-256KiB-edge-%dstreams" % len(info["streams"]), "info": info,
+                "only_streams": [len(info["streams"]) - 2, len(info["streams"]) - 1]}
+    raise core.HarnessError("could not build the straddling file")
 
 
 def make_eval(exe, files):
     def ev(item, stats):
-        fi, name, bit0, k, si, bi, n, sched = item
+        fi, name, bit0, k, si, bi, n, sched, ing = item
         f = files[fi]
         data = corpus.flip_bit(f["data"], bit0 + k)
         sc = None
         if sched == "serial":
             sc = "serial:%d:pct:2:300" % (bit0 + k)
-        r = lb.decompress(exe, data, n, sc)
+        if ing and len(data) // ing > 8000:
+            ing = None
+        r = lb.decompress(exe, data, n, sc, ing=ing)
         if r.timeout:
             stats.inconclusive += 1
             return None
@@ -30,19 +66,24 @@ def make_eval(exe, files):
         nb = len(f["info"]["streams"][si]["blocks"])
         labels = [name, "workers=%d%s" % (n, "-serial" if sched else ""),
                   "first-stream" if si == 0 else "later-stream"]
+        if ing:
+            labels.append("input-blocks=%dB" % ing)
+        if f["desc"].startswith("crc-straddles"):
+            labels.append("crc-straddles-256KiB-input-block-edge")
         if name == "block_crc":
             labels.append("first-block" if bi == 0 else "last-block" if bi == nb - 1 else "middle-block")
             if f["info"]["streams"][si]["blocks"][bi]["bit"] % 8:
                 labels.append("block-not-byte-aligned")
         if si == nstreams - 1:
             labels.append("last-stream")
-        stats.add(core.fp(fi, name, si, bi, k, n, sched), True, labels,
+        stats.add(core.fp(fi, name, si, bi, k, n, sched, ing), True, labels,
                   {"file": f["desc"], "field": name, "stream": si, "block": bi, "bit": k, "workers": n,
                    "rc": r.rc} if k == 0 and n == 1 else None)
         if r.rc != 1:
             return {"file_desc": f["desc"], "data_hex": data.hex() if len(data) < 6000 else None,
                     "corpus_seed": files.seed, "file_index": fi, "field": name, "stream": si, "block": bi, "bit": k,
-                    "abs_bit": bit0 + k, "workers": n, "sched": sc,
+                    "abs_bit": bit0 + k, "workers": n, "sched": sc, "ing": ing,
+                    "straddle": f["desc"].startswith("crc-straddles"),
                     "what": "rc=%s (expected 1) stderr=%r" % (r.rc, r.err[:200])}
         return None
     return ev
@@ -62,6 +103,7 @@ def build_files(exe, seed, count):
             if len(f["info"]["streams"]) >= 2 and nb >= 3 and len(fs) < count:
                 fs.append(f)
         k += 1
+    fs.append(straddle_file(seed))
     return fs
 
 
@@ -70,9 +112,11 @@ def items_of(files):
     for fi, f in enumerate(files):
         for name, bit, width, si, bi in corpus.fields(f["info"]):
             if name in ("block_crc", "stream_crc"):
+                if "only_streams" in f and si not in f["only_streams"]:
+                    continue
                 for k in range(width):
-                    for n, sched in WORKERS:
-                        items.append((fi, name, bit, k, si, bi, n, sched))
+                    for n, sched, ing in WORKERS:
+                        items.append((fi, name, bit, k, si, bi, n, sched, ing))
     return items
 
 
@@ -81,9 +125,12 @@ def replay_case(case):
     if case.get("data_hex"):
         data = bytes.fromhex(case["data_hex"])
     else:
-        files = build_files(exe, case["corpus_seed"], case["file_index"] + 1)
-        data = corpus.flip_bit(files[case["file_index"]]["data"], case["abs_bit"])
-    r = lb.decompress(exe, data, case["workers"], case.get("sched"))
+        if case.get("straddle"):
+            base = straddle_file(case["corpus_seed"])["data"]
+        else:
+            base = build_files(exe, case["corpus_seed"], case["file_index"] + 1)[case["file_index"]]["data"]
+        data = corpus.flip_bit(base, case["abs_bit"])
+    r = lb.decompress(exe, data, case["workers"], case.get("sched"), ing=case.get("ing"))
     if r.rc != 1 and not r.timeout:
         return dict(case, what="rc=%s" % r.rc)
     return None
